@@ -124,7 +124,7 @@ class HistAdapter(Adapter):
     engine = "hist"
     level = "exploration"
     components = HIST_COMPONENTS
-    RUNS = {"quick": 40000, "thorough": 2000000}
+    RUNS = {"quick": 100000, "thorough": 2000000}
     assumptions = [
         "NumPy's concatenate/column_stack/take/boolean selection are the reference semantics",
         "arguments are kept inside each operation's documented domain by the generator's guards",
@@ -181,17 +181,223 @@ HIST_PROBES = (
     "probe_column_stack_mixed_commons", "probe_column_stack_mixed_ndim", "from_array_rowscan_candidate",
 )
 
+SCHED_COMPONENTS = {
+    "real": ["ccube/xcube.calculate", "fill_one_cube closures", "all ffunc_*/xfunc_* aggregates", "iindex.slices1d",
+             "set_operations kernels", "NumPy", "real OS threads (one runnable at a time)"],
+    "stub": ["multiprocessing.pool.ThreadPool / xcube.pool_class -> sim.sched.SimPool (same chunking, FIFO hand-out, "
+             "per-chunk abort, all-chunks-then-first-failure semantics)",
+             "time module as seen from catii.xcubes / catii.ffuncs -> SimClock (scheduler ticks)"],
+    "not_modelled": ["interleavings inside one bytecode (GIL-releasing NumPy/Cython loops are atomic)",
+                     "ThreadPool's internal handler threads and queues"],
+}
+
+
+class PooledAdapter(Adapter):
+    prop = "C16"
+    engine = "sched"
+    level = "exploration"
+    components = SCHED_COMPONENTS
+    RUNS = {"quick": 2400, "thorough": 60000}
+    SELFTEST = {"quick": 6, "thorough": 16}
+    required_probes = ("pooled_runs_engaged", "engaged_via_flag", "engaged_via_threshold", "strategy_uniform",
+                       "strategy_pct", "strategy_targeted", "strategy_rtc", "switches_with_2+_tasks_in_flight",
+                       "probe_poolsize_1", "cube_ccube", "cube_xcube")
+    assumptions = [
+        "SimPool is observably equivalent to multiprocessing.pool.ThreadPool.map (checked by the stub-fidelity self-test)",
+        "a bytecode instruction is atomic: races confined to one GIL-releasing C loop are not explored",
+        "bit equality with the serial run is the oracle: each task performs exactly the serial computation on its own view",
+    ]
+
+    def prepare(self):
+        from . import poolrun
+
+        poolrun.prepare()
+
+    @property
+    def run(self):
+        from .props import pooled
+
+        return pooled.run
+
+    def replay(self, case):
+        from .props import pooled
+
+        pooled.replay(case)
+
+    def minimise(self, case, signature):
+        from .props import pooled
+
+        return pooled.minimise(case, signature)
+
+    def size(self, case):
+        return len(case.get("decisions", ())) if case else 0
+
+    def extra_selftests(self, tier):
+        from . import selftest
+
+        return {"stub_fidelity": selftest.stub_fidelity()}
+
+    def coverage(self, stats, tier, n_runs):
+        from .props import pooled
+
+        c = stats.counters
+        return {
+            "evaluations": int(c.get("evaluations", 0)),
+            "distinct_nontrivial": len(stats.distinct.get("nontrivial_workloads", ())),
+            "rule": pooled.RULE,
+            "samples": stats.samples[:3],
+            "exhaustive": False,
+            "pooled_evaluations": c.get("pooled_evaluations", 0),
+            "distinct_schedules": len(stats.distinct.get("schedules", ())),
+            "distinct_switch_location_pairs": len(stats.distinct.get("switch_location_pairs", ())),
+            "simulated_steps": c.get("sim_steps", 0),
+            "simulated_time_s": round(c.get("sim_steps", 0) * 1e-6, 3),
+            "context_switches": c.get("context_switches", 0),
+            "discarded_unsupported": c.get("discarded_unsupported", 0),
+        }
+
+
+class InterruptAdapter(PooledAdapter):
+    prop = "C20"
+    level = "fault_enumeration"
+    RUNS = {"quick": 1000, "thorough": 20000}
+    SELFTEST = {"quick": 4, "thorough": 12}
+    required_probes = ("serial_runs", "pooled_runs", "pooled_runs_engaged", "fault_interrupt_serial_Exception",
+                       "fault_interrupt_serial_BaseException", "fault_interrupt_pooled",
+                       "probe_interrupt_first_subcube", "probe_interrupt_middle_subcube",
+                       "probe_interrupt_last_subcube", "probe_interrupt_two_chunks_at_once",
+                       "probe_interrupt_first_task_of_chunk", "recovery_calls_serial", "recovery_calls_pooled",
+                       "cube_ccube", "cube_xcube")
+    assumptions = PooledAdapter.assumptions + [
+        "pooled interrupts are Exception subclasses only: the real ThreadPool worker loop catches Exception only, a "
+        "BaseException there kills the worker and hangs map (standard-library behaviour, mirrored by the stub)",
+    ]
+
+    @property
+    def run(self):
+        from .props import interrupt
+
+        return interrupt.run
+
+    def replay(self, case):
+        from .props import interrupt
+
+        interrupt.replay(case)
+
+    def minimise(self, case, signature):
+        from .props import interrupt
+
+        return interrupt.minimise(case, signature)
+
+    def size(self, case):
+        if not case:
+            return 0
+        p = case["plan"]
+        return len(p.get("decisions") or ()) + len(p.get("rec_decisions") or ()) + len(case["workload"]["aggs"])
+
+    def extra_selftests(self, tier):
+        return None
+
+    def coverage(self, stats, tier, n_runs):
+        from .props import interrupt
+
+        c = stats.counters
+        return {
+            "evaluations": int(c.get("evaluations", 0)),
+            "distinct_nontrivial": len(stats.distinct.get("nontrivial_workloads", ())),
+            "rule": interrupt.RULE,
+            "samples": stats.samples[:3],
+            "exhaustive": False,
+            "serial_interrupt_indexes_exhaustive_per_cube": True,
+            "fault_plans": c.get("fault_plans", 0),
+            "distinct_fault_plans": len(stats.distinct.get("fault_plans", ())),
+            "faults_injected": {
+                "serial_Exception": c.get("fault_interrupt_serial_Exception", 0),
+                "serial_BaseException": c.get("fault_interrupt_serial_BaseException", 0),
+                "pooled_plans_with_raises": c.get("fault_interrupt_pooled", 0),
+                "raises_planned_serial": c.get("raises_planned_serial", 0),
+                "raises_fired_serial": c.get("raises_fired_serial", 0),
+                "raises_planned_pooled": c.get("raises_planned_pooled", 0),
+                "raises_fired_pooled": c.get("raises_fired_pooled", 0),
+            },
+            "recovery_calls": {"serial": c.get("recovery_calls_serial", 0), "pooled": c.get("recovery_calls_pooled", 0)},
+            "distinct_schedules": len(stats.distinct.get("schedules", ())),
+            "simulated_steps": c.get("sim_steps", 0),
+            "simulated_time_s": round(c.get("sim_steps", 0) * 1e-6, 3),
+            "context_switches": c.get("context_switches", 0),
+            "discarded_unsupported": c.get("discarded_unsupported", 0),
+        }
+
+
+class PurityAdapter(PooledAdapter):
+    prop = "C17"
+    level = "exploration"
+    RUNS = {"quick": 20000, "thorough": 500000}
+    SELFTEST = {"quick": 6, "thorough": 16}
+    required_probes = ("op_calculate", "op_shortcut", "op_newcube", "op_index", "probe_correct_call_after_interrupt",
+                       "probe_several_aggregates_in_one_pass", "fault_interrupt_during_session", "cube_ccube",
+                       "cube_xcube")
+    assumptions = [
+        "an aggregate evaluated alone, serially, on fresh copies with a fresh object is the reference for that aggregate",
+        "SimPool is observably equivalent to multiprocessing.pool.ThreadPool.map",
+        "diagnostics (tracing dicts, intersection_data_points, warnings filters) are not part of the property",
+    ]
+
+    @property
+    def run(self):
+        from .props import purity
+
+        return purity.run
+
+    def replay(self, case):
+        from .props import purity
+
+        purity.replay(case)
+
+    def minimise(self, case, signature):
+        from .props import purity
+
+        return purity.minimise(case, signature)
+
+    def size(self, case):
+        return len(case["ops"]) if case else 0
+
+    def extra_selftests(self, tier):
+        return None
+
+    def coverage(self, stats, tier, n_runs):
+        from .props import purity
+
+        c = stats.counters
+        return {
+            "evaluations": int(c.get("evaluations", 0)),
+            "distinct_nontrivial": len(stats.distinct.get("nontrivial_sessions", ())),
+            "rule": purity.RULE,
+            "samples": stats.samples[:3],
+            "exhaustive": False,
+            "calls_executed": c.get("steps", 0),
+            "faults_injected": {"interrupts_during_sessions": c.get("fault_interrupt_during_session", 0)},
+            "distinct_schedules": len(stats.distinct.get("schedules", ())),
+            "simulated_steps": c.get("sim_steps", 0),
+            "context_switches": c.get("context_switches", 0),
+            "discarded_unsupported": c.get("discarded_unsupported", 0),
+        }
+
+
 REGISTRY = {
+    "C16": PooledAdapter(),
+    "C17": PurityAdapter(),
+    "C20": InterruptAdapter(),
     "C06": HistAdapter("C06", HIST_PROBES),
     "C07": HistAdapter("C07", HIST_PROBES),
     "C15": HistAdapter("C15", HIST_PROBES + ("c15_library_chosen_common_checked", "c15_equality_pairs")),
-    "C10": StorageAdapter("C10", "exploration", {"quick": 60000, "thorough": 3000000},
+    "C10": StorageAdapter("C10", "exploration", {"quick": 500000, "thorough": 10000000},
                           probes=("index_derived_cases", "empty_entry_sets", "cases_with_empty_rowid_array",
                                   "wmode_raw", "wmode_bufw", "wmode_bufrw", "c_level_blocks")),
-    "C11": StorageAdapter("C11", "exploration", {"quick": 20000, "thorough": 1000000},
+    "C11": StorageAdapter("C11", "exploration", {"quick": 200000, "thorough": 4000000},
                           probes=("scale_total_ge_2^30", "scale_total_ge_2^32", "ref_to_lib_iw8_rw8",
                                   "ref_to_lib_iw1_rw1", "lib_to_ref_files")),
-    "C12": StorageAdapter("C12", "fault_enumeration", {"quick": 1500, "thorough": 100000},
+    "C12": StorageAdapter("C12", "fault_enumeration", {"quick": 20000, "thorough": 400000},
                           probes=("fault_crash_at_byte", "fault_disk_full", "cut_region_magic",
                                   "cut_region_version", "cut_region_size_word", "cut_region_header",
                                   "cut_region_coordinates", "cut_region_lengths", "cut_region_rowids",
